@@ -16,6 +16,8 @@ pub struct Pair<E: Ep> {
     pub variant: Variant,
     /// every datagram ever emitted, per sender
     pub emitted: [Vec<Vec<u8>>; 2],
+    /// random draws made so far, per side
+    pub draws: [u8; 2],
 }
 
 const CONNECT6_TOKEN: &[u8] = b"\x10\x00\x00\x01TKEN\xff\xff\xff\xff";
@@ -29,6 +31,7 @@ impl<E: Ep> Pair<E> {
             net: [VecDeque::new(), VecDeque::new()],
             variant,
             emitted: [Vec::new(), Vec::new()],
+            draws: [0, 0],
         }
     }
     pub fn clone_pair(&self) -> Pair<E> {
@@ -38,12 +41,14 @@ impl<E: Ep> Pair<E> {
             net: self.net.clone(),
             variant: self.variant,
             emitted: [Vec::new(), Vec::new()],
+            draws: self.draws,
         }
     }
     /// Run `f` on endpoint `side`; emitted datagrams go onto the network.
     pub fn with<R>(&mut self, side: usize, f: impl FnOnce(&mut E, &mut Cb) -> R) -> R {
-        let mut cb = Cb::new(self.now, RANDOM[side]);
+        let mut cb = Cb::with_draws(self.now, RANDOM[side], self.draws[side]);
         let r = f(&mut self.ep[side], &mut cb);
+        self.draws[side] = self.draws[side].wrapping_add(cb.random_calls as u8);
         for mut d in cb.out {
             self.emitted[side].push(d.clone());
             if self.variant == Variant::V6N && side == 0 && d == CONNECT6_TOKEN {
